@@ -285,6 +285,11 @@ impl<'tcx> Cx<'tcx> {
                         items.push(("ty", esc(&self.ty_s(ty))));
                         let mut v = with_no_trimmed_paths!(format!("{}", c.const_));
                         // promoted / associated constants: show the evaluated value when it does not depend on generics
+                        if let mir::Const::Unevaluated(uv, _) = c.const_ {
+                            if let Some(pi) = uv.promoted {
+                                items.push(("promoted", format!("{}", pi.as_usize())));
+                            }
+                        }
                         if let mir::Const::Unevaluated(..) = c.const_ {
                             let tcx = self.tcx;
                             let env = TypingEnv::post_analysis(tcx, caller);
@@ -663,6 +668,39 @@ impl<'tcx> Cx<'tcx> {
             ]));
         }
         items.push(("blocks", arr(blocks)));
+        // literal constants of the promoted bodies (array / string tables are promoted out of the function)
+        let proms = tcx.promoted_mir(ldid);
+        let mut plist = vec![];
+        for pb in proms.iter() {
+            let mut consts = vec![];
+            for data in pb.basic_blocks.iter() {
+                for st in &data.statements {
+                    if let StatementKind::Assign(b) = &st.kind {
+                        let (_, rv) = &**b;
+                        let mut push = |o: &Operand<'tcx>| {
+                            if let Operand::Constant(c) = o {
+                                consts.push(esc(&with_no_trimmed_paths!(format!("{}", c.const_))));
+                            }
+                        };
+                        match rv {
+                            Rvalue::Use(o, ..) | Rvalue::Repeat(o, _) | Rvalue::Cast(_, o, _) | Rvalue::UnaryOp(_, o) => push(o),
+                            Rvalue::BinaryOp(_, ab) => {
+                                push(&ab.0);
+                                push(&ab.1);
+                            }
+                            Rvalue::Aggregate(_, ops) => {
+                                for o in ops.iter() {
+                                    push(o);
+                                }
+                            }
+                            _ => {}
+                        }
+                    }
+                }
+            }
+            plist.push(arr(consts));
+        }
+        items.push(("promoted_consts", arr(plist)));
         Some(obj(items))
     }
 
